@@ -25,7 +25,7 @@ def config(tier):
     return {
         "hashseeds": [0] if q else [0, 1, 2, 3],
         "families": ["G2"],
-        "mc": [],
+        "mc": [{"module": "MCVerilogIO", "cfg": "MCVerilogIO", "workers": 4, "timeout": 900}],
         "shards": 8 if q else 16,
         "negctl": 12,
     }
@@ -82,7 +82,7 @@ def run_case(case, ctx):
         bbs = [cg.BlackBox(t["type"], t["ins"], t["outs"]) for t in p["bbtypes"]]
         dup = any(it["k"] == "gate" and it["t"] in ("xor", "xnor") and len({str(e) for e in it["ins"]}) < len(it["ins"])
                   for it in p["items"])
-        ev = {"kind": "parse2", "text": text, "nontrivial": len(p["items"]) >= 2,
+        ev = {"kind": "parse2", "text": text, "p": vlog.to_spec(p), "nontrivial": len(p["items"]) >= 2,
               "tags": ["repeated_parity_operand"] if dup else []}
         ev.update(both(text, p["name"], bbs))
         return ev
